@@ -326,14 +326,21 @@ Proof.
   intros [O W] Hh. assert (Hi : (i < nslots s)%nat).
   { destruct O as [L _]. rewrite <- L. eapply hget_some; eauto. discriminate. }
   unfold op_mark.
-  assert (C : cas (set_st s i SSendable) i SCreated SNone = None).
-  { unfold cas. rewrite sst_set_st by exact Hi. rewrite Nat.eqb_refl. reflexivity. }
-  rewrite C. split; [|apply wf_set_st; exact W].
-  eapply own_update with (st' := SSendable); eauto.
-  - apply nslots_set_st.
-  - intros j Nj. rewrite sst_set_st by exact Hi. apply Nat.eqb_neq in Nj. rewrite Nj. reflexivity.
-  - rewrite sst_set_st by exact Hi. rewrite Nat.eqb_refl. reflexivity.
-  - cbn. auto.
+  set (s0 := set s i _).
+  assert (N0 : nslots s0 = nslots s) by apply nslots_set.
+  assert (St0 : forall j, sst (get s0 j) = sst (get s j)).
+  { intros j. subst s0. destruct (Nat.eq_dec j i) as [->|N];
+      [rewrite get_set_eq by exact Hi|rewrite get_set_ne by exact N]; reflexivity. }
+  assert (C : cas (set_st s0 i SSendable) i SCreated SNone = None).
+  { unfold cas. rewrite sst_set_st by (rewrite N0; exact Hi). rewrite Nat.eqb_refl. reflexivity. }
+  rewrite C. split.
+  - eapply own_update with (st' := SSendable); eauto.
+    + rewrite nslots_set_st. exact N0.
+    + intros j Nj. rewrite sst_set_st by (rewrite N0; exact Hi).
+      apply Nat.eqb_neq in Nj. rewrite Nj. apply St0.
+    + rewrite sst_set_st by (rewrite N0; exact Hi). rewrite Nat.eqb_refl. reflexivity.
+    + cbn. auto.
+  - apply wf_set_st. destruct W as [I F]. split; [rewrite N0; exact I|exact F].
 Qed.
 
 Lemma op_drop_created_good s h i : Good s h -> hget h i = HCreated ->
@@ -625,7 +632,12 @@ Proof.
     split; [apply op_push_rest_good; split; assumption|apply op_push_rest_wfp; exact Wp].
   - destruct (hk_eqb (hget h i) HCreated) eqn:E; [|discriminate]. hk_case E. inversion H; subst. cbn [fst snd].
     split; [apply op_mark_good; [split; assumption|exact E]|].
-    unfold op_mark. destruct (cas _ _ _ _) as [s2|] eqn:C; [apply cas_some in C as [_ ->]; apply wfp_set_st|]; apply wfp_set_st; exact Wp.
+    unfold op_mark.
+    assert (W0 : wf_pstate (set s i {| sst := sst (get s i); skey := skey (get s i); sfr := sfr (get s i);
+                                       shdr := ecat_header (fused (sfr (get s i))) |})).
+    { destruct (Nat.ltb_spec i (nslots s)) as [Hi|Hi]; [apply wfp_set; auto; cbn; apply Wp; exact Hi|].
+      rewrite set_oob by exact Hi. exact Wp. }
+    destruct (cas _ _ _ _) as [s2|] eqn:C; [apply cas_some in C as [_ ->]; apply wfp_set_st|]; apply wfp_set_st; exact W0.
   - destruct (hk_eqb (hget h i) HCreated) eqn:E; [|discriminate]. hk_case E. inversion H; subst. cbn [fst snd].
     split; [apply op_drop_created_good; [split; assumption|exact E]|].
     unfold op_drop_created. destruct (cas _ _ _ _) as [s2|] eqn:C; [apply cas_some in C as [_ ->]; apply wfp_set_st|]; exact Wp.
